@@ -14,18 +14,20 @@ def _p(quick, thorough=None, extra=None):
 
 
 PROPS = {
-    'C01': _p(['E1', 'E2', 'E3', 'E4']),
-    'C02': _p(['E2', 'E3', 'E4']),
-    'C03': _p(['E3', 'E4']),
+    'C01': _p(['E1', 'E2', 'E3', 'E4', 'E9']),
+    'C02': _p(['E2', 'E3', 'E4', 'E9']),
+    'C03': _p(['E3', 'E4', 'E9']),
     'C04': _p(['E1', 'E2', 'E3']),
     'C05': _p(['E5']),
     'C06': _p(['E5', 'E3']),
+    'C07': _p(['E9']),
     'C08': _p(['E3', 'E4', 'E5']),
     'C09': _p(['E2', 'E3', 'E4']),
     'C10': _p(['E4', 'E3']),
     'C11': _p(['E3', 'E4']),
     'C12': _p(['E3', 'E4', 'E5']),
-    'C14': _p(['E1', 'E2', 'E3']),
+    'C13': _p(['E9']),
+    'C14': _p(['E1', 'E2', 'E3', 'E9']),
     'C15': _p(['E3', 'E5']),
 }
 
@@ -38,6 +40,8 @@ ENGINE_INFO = {
            'kind': 'schedules and presentation: every TLC-enumerated right table x n_jobs values x presentation variants; results compared as multisets by TLC (EQ law) and validated against the envelope'},
     'E5': {'path': 'harness/vf/engines/e5.py + spec/GenCandsets.tla, TraceMatcher.tla',
            'kind': 'apply_matcher / filter_candset over every TLC-enumerated candidate set and missing pattern'},
+    'E9': {'path': 'harness/vf/engines/e9.py + spec/TraceLaws.tla, TraceAPI.tla',
+           'kind': 'relational laws (transposition, refinement, operator partition, join = filter + matcher, Position within Prefix and Size) on seeded random tables, tie-point witness tables and the bundled person/books data; joins on the random tables validated against the envelope'},
     'E3': {'path': 'harness/vf/engines/e3.py + spec/GenTables.tla, GenStrTables.tla, TraceAPI.tla, Semantics.tla',
            'kind': 'TLC enumerates all pairs of small tables; every pair is executed on the real joins / filter_tables under seeded configurations; TLC validates every recorded call against the property-level envelope'},
 }
